@@ -94,6 +94,7 @@ def run(ctx):
     ctx.guard("callback-table", callback_table_rust, ctx, crate, crs)
     ctx.guard("alloc-symmetry", alloc_symmetry_rust, ctx, crate, crs)
     ctx.guard("alloc-symmetry", refcount_protocol_rust, ctx, crate, crs)
+    ctx.guard("alloc-symmetry", refcount_writers_rust, ctx, crate, crs)
     ctx.guard("provider-mapping", provider_mapping, ctx, crate, crs)
     ctx.guard("foreign-slices", foreign_slices, ctx, crate, crs)
 
@@ -316,8 +317,28 @@ def callback_table_cxx(ctx, crate, cx):
     if il:
         names = refs(il[0])
         want = ["provider"] + ["bridge_" + f for f in rust_fields[1:]]
-        ctx.ob(R, "resolvo::solve", "initialiser-order==field-order", names == want, "cpp/include/resolvo.h",
-               "initialiser lists %s" % names if names != want else "data + 13 bridge functions in the field order of the Rust struct")
+        ok_tab = names == want
+        detail = "initialiser lists %s" % names
+        if not names:
+            # value-initialised table filled field by field: `bridge.<field> = private_api::bridge_<field>;` - agreement is then by name
+            locals_ = {v.get("name"): refs(v) for v in cxx.walk(solve[0], lambda n: n.get("kind") == "VarDecl")}
+            got = {}
+            for bo in cxx.walk(solve[0], lambda n: n.get("kind") == "BinaryOperator" and n.get("opcode") == "="):
+                ks = [x for x in bo.get("inner", []) if isinstance(x, dict)]
+                if len(ks) != 2:
+                    continue
+                lhs = ks[0]
+                while lhs.get("kind") in ("ImplicitCastExpr", "ParenExpr") and lhs.get("inner"):
+                    lhs = lhs["inner"][0]
+                if lhs.get("kind") == "MemberExpr" and "DependencyProvider" in str(((lhs.get("inner") or [{}])[0]).get("type", {}).get("qualType", "")):
+                    r_ = refs(ks[1])
+                    r_ = [y for x in r_ for y in (locals_.get(x, [x]) if x in locals_ else [x])]
+                    got.setdefault(lhs.get("name"), []).append(r_)
+            ok_tab = set(got) == set(rust_fields) and all(len(v) == 1 for v in got.values()) and \
+                all(got[f][0] == (["provider"] if f == "data" else ["bridge_" + f]) for f in rust_fields if f in got)
+            detail = "field-wise assignments %s" % {k: v for k, v in sorted(got.items())}
+        ctx.ob(R, "resolvo::solve", "initialiser-order==field-order", ok_tab, "cpp/include/resolvo.h",
+               detail if not ok_tab else "data + 13 bridge functions, each in the slot of the Rust field of the same name")
     # the table (and anything else computed from the arguments) is rebuilt on every call: a `static` / `thread_local` local
     # initialised from a parameter is initialised once, by the first call, and silently serves every later provider
     nvars = 0
@@ -1262,7 +1283,12 @@ def refcount_protocol_cxx(ctx, crate, cx):
             sts = _kids(cs)
             d_idx = [k for k, st in enumerate(sts) if cxx.walk(st, lambda y: y.get("kind") == "CXXPseudoDestructorExpr")]
             f_idx = [k for k, st in enumerate(sts) if _contains_call(st, "resolvo_vector_free")]
-            if d_idx and f_idx and max(d_idx) < min(f_idx) and sts[d_idx[0]].get("kind") in ("ForStmt", "WhileStmt", "CXXForRangeStmt", "CallExpr"):
+            # the destructor loop may sit inside an `if constexpr (!trivially_destructible)`; what matters is that it is a loop, in a
+            # statement that precedes the one that frees, in the block that frees
+            in_loop = any(cxx.walk(sts[k], lambda y: y.get("kind") in ("ForStmt", "WhileStmt", "CXXForRangeStmt") and
+                                   cxx.walk(y, lambda z: z.get("kind") == "CXXPseudoDestructorExpr")) or
+                          _contains_call(sts[k], "destroy") or _contains_call(sts[k], "destroy_n") for k in d_idx)
+            if d_idx and f_idx and max(d_idx) < min(f_idx) and in_loop and not any(k in d_idx for k in f_idx):
                 order_ok = True
         ctx.ob(R, "resolvo::Vector::drop", "elements-destroyed-before-the-buffer-is-freed", order_ok, H,
                "the element destructors run in a loop that precedes resolvo_vector_free in the same block")
@@ -1351,8 +1377,17 @@ def refcount_protocol_cxx(ctx, crate, cx):
             if cond is not None and len(_kids(cond)) == 2:
                 a, b_ = _kids(cond)
                 a_var = (_strip(a).get("referencedDecl") or {}).get("name") == var
-                cond_ok = (cond.get("opcode") == "<" and a_var and _member_of_this(b_, "size")) or \
-                          (cond.get("opcode") == "!=" and a_var and _member_of_this(b_, "size"))
+                bound_is_size = _member_of_this(b_, "size")
+                bn = (_strip(b_).get("referencedDecl") or {}).get("name")
+                if not bound_is_size and bn:
+                    # `const std::size_t old_size = inner->size;` declared before the loop and never assigned again
+                    for vd in cxx.walk(body, lambda y: y.get("kind") == "VarDecl" and y.get("name") == bn):
+                        if _kids(vd) and _member_of_this(_kids(vd)[-1], "size"):
+                            reassigned = cxx.walk(body, lambda y: y.get("kind") in ("BinaryOperator", "CompoundAssignOperator", "UnaryOperator") and
+                                                  y.get("opcode") in ("=", "+=", "-=", "++", "--") and _kids(y) and
+                                                  (_strip(_kids(y)[0]).get("referencedDecl") or {}).get("name") == bn)
+                            bound_is_size = not reassigned
+                cond_ok = cond.get("opcode") in ("<", "!=") and a_var and bound_is_size
             news = cxx.walk(lp, lambda y: y.get("kind") == "CXXNewExpr")
             new_ok = False
             for nw in news:
@@ -1508,3 +1543,50 @@ def refcount_protocol_rust(ctx, crate, crs):
         ok = not (set(rets) & r1) and not (set(rets) & r2)
     ctx.ob(R, b.key, "keeps-the-buffer-only-if-unique-and-large-enough", ok, b.loc(),
            "every path through detach that does not allocate a new buffer has seen refcount == 1 and new_capacity <= capacity (%s)" % detail)
+
+
+REFCOUNT_WRITERS = {
+    "fetch_add": {"<resolvo_cpp::vector::Vector<T> as std::clone::Clone>::clone"},
+    "fetch_sub": {"<resolvo_cpp::vector::Vector<T> as std::ops::Drop>::drop"},
+    # a unique owner turns its buffer into an un-counted one (count 0) before it moves the elements out
+    "store": {"<resolvo_cpp::vector::Vector<T> as std::iter::IntoIterator>::into_iter",
+              "<resolvo_cpp::vector::Vector<T> as std::iter::FromIterator<T>>::from_iter"},
+}
+
+
+def refcount_writers_rust(ctx, crate, crs):
+    """Who may change a reference count on the Rust side: Clone increments, Drop decrements, and the two places that take a
+    *unique* buffer apart store 0.  A handle that is still alive owns exactly one count, so any other decrement (seed C17-15:
+    into_iter giving up its count with fetch_sub while the handle it keeps will be dropped, and decrement, again) releases a
+    buffer that C++ still holds."""
+    R = "alloc-symmetry"
+    n = 0
+    for b in crate.bodies:
+        for i, t in b.calls():
+            f = t.get("f")
+            if f is None or "atomic" not in f["path"] or f["name"] in ("load", "new", "fmt", "default", "clone", "from"):
+                continue
+            if not t["args"]:
+                continue
+            n += 1
+            fn = q.enclosing_fn(crate, b)
+            allowed = REFCOUNT_WRITERS.get(f["name"], set())
+            ctx.ob(R, fn, "count-changed-only-by-its-owner:%s" % f["name"], fn in allowed, where_call(b, i),
+                   "atomic %s on a reference count; allowed in %s" % (f["name"], sorted(a.split(" as ")[-1] for a in allowed) or "no function"))
+    ctx.floor(R, "atomic updates of the reference count", n, 3)
+    # into_iter: the count is set to 0 only behind `load == 1` and after the handle was forgotten
+    for b in crate.bodies:
+        if b.d.get("impl_trait") == "std::iter::IntoIterator" and b.d.get("impl_adt") == "resolvo_cpp::vector::Vector" and b.key.endswith("into_iter"):
+            stores = [i for i, t in b.calls() if t.get("f") and t["f"]["name"] == "store" and "atomic" in t["f"]["path"]]
+            forgets = [i for i, t in b.calls() if t.get("f") and t["f"]["name"] == "forget"]
+            ok = False
+            for c in q.conds(b, crs):
+                if c.kind == "cmp" and c.op == "Eq":
+                    for x, y in ((c.a, c.b), (c.b, c.a)):
+                        if y.get("k") == "const" and y.get("v") == 1:
+                            d, _ = q.origin_thru(b, x, transparent=set())
+                            if d["k"] == "call" and d["t"].get("f") and d["t"]["f"]["name"] == "load" and stores and forgets and \
+                                    all(q.edge_dominates(b, c.bb, c.target(True), i) for i in stores + forgets):
+                                ok = True
+            ctx.ob(R, b.key, "unique-buffer-is-uncounted-only-behind-load==1-and-forget", ok, b.loc(),
+                   "into_iter stores 0 and forgets the handle only on the edge where the count was read as 1; a shared vector keeps its handle (and its count)")
